@@ -329,3 +329,336 @@ Proof.
   induction 1 as [|s tr e s' o Hr IH Hs]; [apply Frames_init|].
   eapply step_Frames; eauto; [eapply reach_SInv|eapply reach_Hist]; eauto.
 Qed.
+
+(* accounting: where every request is, and why a handler's result was not sent *)
+Record Acct (s : st) (tr : list output) : Prop := {
+  a_recv : forall rid, rid < lo s -> (exists t k, In (ORecv rid t k) tr) \/ closed s = true;
+  a_where : forall rid t k, In (ORecv rid t k) tr ->
+      is_Some (hs s !! rid) \/ (exists f, pc s = SendImm f /\ f_rid f = rid) \/ In rid (hand_ids tr) \/ fault s = true;
+  a_gone : forall rid h, hs s !! rid = Some h -> h_st h = HGone ->
+      h_canc h = true \/ fault s = true \/ In rid (hand_ids tr) \/ exists f, pc s = SendDone rid f;
+  a_take : forall f, In (OTake f) tr -> wr s = WBusy f \/ In (OFrame f) tr \/ closed s = true;
+  a_lost : forall f, In (OLost f) tr -> closed s = true;
+  a_canc : forall v, In (OCancel v) tr ->
+      ctxd s = true \/ pc s = PReturned \/ exists f, (pc s = SendImm f \/ handed tr f) /\ f_pl f = PFlushAck v
+}.
+
+Lemma Acct_init : Acct init [].
+Proof.
+  constructor; cbn.
+  - intros rid H. unfold lo, pending_ids in H. cbn in H. lia.
+  - intros ? ? ? [].
+  - intros ? ?. rewrite lookup_empty. discriminate.
+  - intros ? [].
+  - intros ? [].
+  - intros ? [].
+Qed.
+
+(* a step in which the loop's pc, the handlers and lo do not change, and nothing is handed over *)
+Lemma Acct_quiet s tr s' o : Acct s tr -> hs s' = hs s -> pc s' = pc s -> lo s' = lo s ->
+  (closed s = true -> closed s' = true) -> (ctxd s = true -> ctxd s' = true) ->
+  (forall f, wr s = WBusy f -> wr s' = WBusy f \/ In (OFrame f) o \/ closed s' = true) ->
+  nohand o -> (forall v, ~ In (OCancel v) o) -> (forall r t k, ~ In (ORecv r t k) o) ->
+  Acct s' (tr ++ o).
+Proof.
+  intros [A B C D E F] Hh Hp Hl Hc Hx Hw Hn Hnc Hnr.
+  assert (Hf : fault s = true -> fault s' = true).
+  { unfold fault. intros H. apply orb_true_iff in H as [H|H]; apply orb_true_iff; auto. }
+  assert (Hid : hand_ids (tr ++ o) = hand_ids tr) by (apply hand_ids_nohand, Hn).
+  constructor; rewrite ?Hh, ?Hp, ?Hl, ?Hid.
+  - intros rid Hlt. destruct (A rid Hlt) as [(t & k & H)|H]; [left; exists t, k; apply in_or_app; now left|right; auto].
+  - intros rid t k Hin. apply in_app_or in Hin as [Hin|Hin]; [|exfalso; exact (Hnr _ _ _ Hin)].
+    destruct (B rid t k Hin) as [H|[H|[H|H]]]; auto.
+  - intros rid h Hr Hg. destruct (C rid h Hr Hg) as [H|[H|[H|H]]]; auto.
+  - intros f Hin. apply in_app_or in Hin as [Hin|Hin]; [|exfalso; exact (proj1 (Hn f) Hin)].
+    destruct (D f Hin) as [H|[H|H]]; [|right; left; apply in_or_app; now left|right; right; auto].
+    destruct (Hw f H) as [H2|[H2|H2]]; [now left|right; left; apply in_or_app; now right|right; now right].
+  - intros f Hin. apply in_app_or in Hin as [Hin|Hin]; [apply Hc; eauto|exfalso; exact (proj2 (Hn f) Hin)].
+  - intros v Hin. apply in_app_or in Hin as [Hin|Hin]; [|exfalso; exact (Hnc _ Hin)].
+    destruct (F v Hin) as [H|[H|(f & H1 & H2)]]; [left; auto|right; now left|right; right].
+    exists f. split; [|exact H2]. destruct H1 as [H1|[H1|H1]]; [now left|right; left; apply in_or_app; now left|right; right; apply in_or_app; now left].
+Qed.
+
+Lemma fault_mono s s' : (closed s = true -> closed s' = true) -> (ctxd s = true -> ctxd s' = true) -> fault s = true -> fault s' = true.
+Proof. unfold fault. intros A B H. apply orb_true_iff in H as [H|H]; apply orb_true_iff; auto. Qed.
+
+(* handlers move on; nothing handed over, nothing received *)
+Lemma Acct_hs s tr s' o : Acct s tr -> lo s' = lo s -> wr s' = wr s ->
+  (closed s = true -> closed s' = true) -> (ctxd s = true -> ctxd s' = true) ->
+  (pc s' = pc s \/ (pc s' = PReturned /\ fault s' = true /\
+        forall rid f, pc s = SendDone rid f -> exists h', hs s' !! rid = Some h' /\ h_canc h' = true)) ->
+  (forall rid, is_Some (hs s !! rid) -> is_Some (hs s' !! rid)) ->
+  (forall rid h', hs s' !! rid = Some h' -> h_st h' = HGone ->
+      (exists h, hs s !! rid = Some h /\ h_st h = HGone /\ (h_canc h = true -> h_canc h' = true)) \/
+      h_canc h' = true \/ fault s' = true) ->
+  nohand o -> (forall r t k, ~ In (ORecv r t k) o) ->
+  (forall v, In (OCancel v) o -> ctxd s' = true \/ pc s' = PReturned) ->
+  Acct s' (tr ++ o).
+Proof.
+  intros [A B C D E F] Hl Hw Hc Hx Hp Hk Hg Hn Hnr Hnc.
+  pose proof (fault_mono s s' Hc Hx) as Hf.
+  assert (Hid : hand_ids (tr ++ o) = hand_ids tr) by (apply hand_ids_nohand, Hn).
+  constructor; rewrite ?Hl, ?Hw, ?Hid.
+  - intros rid Hlt. destruct (A rid Hlt) as [(t & k & H)|H]; [left; exists t, k; apply in_or_app; now left|right; auto].
+  - intros rid t k Hin. apply in_app_or in Hin as [Hin|Hin]; [|exfalso; exact (Hnr _ _ _ Hin)].
+    destruct (B rid t k Hin) as [H|[(f & H1 & H2)|[H|H]]]; auto.
+    destruct Hp as [Hp|(Hp & Hfs & _)]; [right; left; exists f; rewrite Hp; auto|auto].
+  - intros rid h' Hr Hgone. destruct (Hg rid h' Hr Hgone) as [(h & Hh & Hhg & Hcc)|[H|H]]; auto.
+    destruct (C rid h Hh Hhg) as [H|[H|[H|(f & H)]]]; auto.
+    destruct Hp as [Hp|(Hp & Hfs & Hd)]; [right; right; right; exists f; congruence|].
+    destruct (Hd rid f H) as (h2 & Hh2 & Hc2). rewrite Hr in Hh2. injection Hh2 as <-. now left.
+  - intros f Hin. apply in_app_or in Hin as [Hin|Hin]; [|exfalso; exact (proj1 (Hn f) Hin)].
+    destruct (D f Hin) as [H|[H|H]]; [now left|right; left; apply in_or_app; now left|right; right; auto].
+  - intros f Hin. apply in_app_or in Hin as [Hin|Hin]; [apply Hc; eauto|exfalso; exact (proj2 (Hn f) Hin)].
+  - intros v Hin. apply in_app_or in Hin as [Hin|Hin]; [|destruct (Hnc v Hin); auto].
+    destruct (F v Hin) as [H|[H|(f & H1 & H2)]]; [left; auto| |].
+    + destruct Hp as [Hp|(Hp & _)]; [right; left; congruence|right; now left].
+    + destruct Hp as [Hp|(Hp & _)]; [|right; now left]. right; right.
+      exists f. split; [|exact H2]. destruct H1 as [H1|[H1|H1]]; [left; congruence|right; left; apply in_or_app; now left|right; right; apply in_or_app; now left].
+Qed.
+
+Lemma hand_ids_app a b : hand_ids (a ++ b) = hand_ids a ++ hand_ids b.
+Proof. unfold hand_ids. apply flat_map_app. Qed.
+Lemma handed_app_l a b f : handed a f -> handed (a ++ b) f.
+Proof. intros [H|H]; [left|right]; apply in_or_app; now left. Qed.
+
+(* the general shape of a step, clause by clause *)
+Lemma Acct_gen s tr s' o : Acct s tr ->
+  (closed s = true -> closed s' = true) -> (ctxd s = true -> ctxd s' = true) ->
+  (forall rid, rid < lo s' -> rid < lo s \/ (exists t k, In (ORecv rid t k) o) \/ closed s' = true) ->
+  (forall rid t k, In (ORecv rid t k) o ->
+      is_Some (hs s' !! rid) \/ (exists f, pc s' = SendImm f /\ f_rid f = rid) \/ fault s' = true) ->
+  (forall rid, is_Some (hs s !! rid) -> is_Some (hs s' !! rid)) ->
+  (forall f, pc s = SendImm f -> pc s' = SendImm f \/ In (f_rid f) (hand_ids (tr ++ o)) \/ fault s' = true) ->
+  (forall rid h', hs s' !! rid = Some h' -> h_st h' = HGone ->
+      (exists h, hs s !! rid = Some h /\ h_st h = HGone /\ (h_canc h = true -> h_canc h' = true)) \/
+      h_canc h' = true \/ fault s' = true \/ In rid (hand_ids (tr ++ o)) \/ exists f, pc s' = SendDone rid f) ->
+  (forall rid f, pc s = SendDone rid f ->
+      (exists f', pc s' = SendDone rid f') \/ In rid (hand_ids (tr ++ o)) \/ fault s' = true \/
+      exists h', hs s' !! rid = Some h' /\ h_canc h' = true) ->
+  (forall f, In (OTake f) o -> wr s' = WBusy f \/ closed s' = true) ->
+  (forall f, wr s = WBusy f -> wr s' = WBusy f \/ In (OFrame f) o \/ closed s' = true) ->
+  (forall f, In (OLost f) o -> closed s' = true) ->
+  (forall v, In (OCancel v) o -> ctxd s' = true \/ pc s' = PReturned \/
+      exists f, (pc s' = SendImm f \/ handed (tr ++ o) f) /\ f_pl f = PFlushAck v) ->
+  (pc s = PReturned -> pc s' = PReturned) ->
+  (forall f v, pc s = SendImm f -> f_pl f = PFlushAck v ->
+      pc s' = SendImm f \/ handed (tr ++ o) f \/ ctxd s' = true \/ pc s' = PReturned) ->
+  Acct s' (tr ++ o).
+Proof.
+  intros [A B C D E F] Hc Hx Hr Hw Hk Hp1 Hg Hp2 Ht Ht2 Hl Ha Hp3 Hp4.
+  pose proof (fault_mono s s' Hc Hx) as Hf.
+  assert (Hin_ids : forall x, In x (hand_ids tr) -> In x (hand_ids (tr ++ o))).
+  { intros x Hx0. rewrite hand_ids_app. apply in_or_app. now left. }
+  constructor.
+  - intros rid Hlt. destruct (Hr rid Hlt) as [H|[(t & k & H)|H]]; [|left; exists t, k; apply in_or_app; now right|now right].
+    destruct (A rid H) as [(t & k & H2)|H2]; [left; exists t, k; apply in_or_app; now left|right; auto].
+  - intros rid t k Hin. apply in_app_or in Hin as [Hin|Hin].
+    + destruct (B rid t k Hin) as [H|[(f & H1 & H2)|[H|H]]]; auto.
+      destruct (Hp1 f H1) as [H|[H|H]]; [right; left; eauto|subst rid; auto|auto].
+    + destruct (Hw rid t k Hin) as [H|[H|H]]; auto.
+  - intros rid h' Hr' Hgone. destruct (Hg rid h' Hr' Hgone) as [(h & Hh & Hhg & Hcc)|[H|[H|[H|H]]]]; auto.
+    destruct (C rid h Hh Hhg) as [H|[H|[H|(f & H)]]]; auto.
+    destruct (Hp2 rid f H) as [H2|[H2|[H2|(h2 & Hh2 & Hc2)]]]; auto.
+    rewrite Hr' in Hh2. injection Hh2 as <-. now left.
+  - intros f Hin. apply in_app_or in Hin as [Hin|Hin].
+    + destruct (D f Hin) as [H|[H|H]]; [|right; left; apply in_or_app; now left|right; right; auto].
+      destruct (Ht2 f H) as [H2|[H2|H2]]; [now left|right; left; apply in_or_app; now right|right; now right].
+    + destruct (Ht f Hin) as [H|H]; [now left|right; now right].
+  - intros f Hin. apply in_app_or in Hin as [Hin|Hin]; [apply Hc; eauto|eauto].
+  - intros v Hin. apply in_app_or in Hin as [Hin|Hin]; [|eauto].
+    destruct (F v Hin) as [H|[H|(f & H1 & H2)]]; [left; auto|right; left; auto|].
+    destruct H1 as [H1|H1].
+    + destruct (Hp4 f v H1 H2) as [H|[H|[H|H]]]; [right; right; exists f; auto|right; right; exists f; auto|now left|right; now left].
+    + right; right. exists f. split; [right; apply handed_app_l, H1|exact H2].
+Qed.
+
+Lemma lo_send s x : IdsInv s -> lo (set_nsent (set_inq s (inq s ++ [x])) (nsent s + 1)) = lo s.
+Proof.
+  intros [_ L]. unfold lo, pending_ids in *. proj_simpl.
+  rewrite !app_length, !map_length, app_length in *. cbn [length]. lia.
+Qed.
+
+Ltac same_hs := let rid := fresh in let h := fresh in intros rid h ? ?; left; exists h; repeat split; auto.
+Ltac no_in := unfold not; intros; repeat match goal with H : In _ (_ :: _) |- _ => destruct H as [H|H]; [try discriminate H|] | H : In _ [] |- _ => destruct H | H : False |- _ => destruct H end.
+
+Lemma lo_arrive s rid tag k s' : IdsInv s -> rd s = RHold rid tag k -> inq s' = inq s -> nsent s' = nsent s -> rd s' = RIdle ->
+  forall x, x < lo s' -> x < lo s \/ x = rid.
+Proof.
+  intros Ii Hr A B C x Hlt. destruct (hold_lo _ _ _ _ Ii Hr) as [-> Hl]. rewrite (Hl s') in Hlt by auto. lia.
+Qed.
+
+Lemma insert_is_Some (m : gmap N hrec) rid h x : is_Some (m !! x) -> is_Some (<[rid := h]> m !! x).
+Proof. intros H. destruct (N.eq_dec x rid) as [->|Hne]; [rewrite lookup_insert; eauto|rewrite lookup_insert_ne by congruence; exact H]. Qed.
+
+Lemma step_Acct s tr e s' o : SInv s -> Hist s tr -> Frames s tr -> Acct s tr -> step R s e = Some (s', o) -> Acct s' (tr ++ o).
+Proof.
+  intros Is Ih If I H. pose proof Is as [Iids Ic Il].
+  destruct e; step_inv H; proj_simpl.
+  - (* ESend *)
+    eapply (Acct_quiet s); [exact I|reflexivity|reflexivity| |auto|auto|auto|nh| |].
+    + apply lo_send, Iids.
+    + intros v [].
+    + intros r t k0 [].
+  - (* EConnErr *)
+    eapply (Acct_quiet s); [exact I|reflexivity|reflexivity|reflexivity|auto|auto|auto|nh| |]; intros; intros [].
+  - (* EFinish *)
+    eapply (Acct_hs s); [exact I|lo_eq|reflexivity|auto|auto|now left| | |nh| |]; proj_simpl.
+    + intros x. apply insert_is_Some.
+    + intros x h' Hx Hg. apply lookup_insert_Some in Hx as [[_ <-]|[_ Hx]]; [discriminate|]. left. exists h'. auto.
+    + intros r0 t k [Hin|[]]; discriminate.
+    + intros v [Hin|[]]; discriminate.
+  - (* EWriteOk *)
+    eapply (Acct_quiet s); [exact I|reflexivity|reflexivity|reflexivity|auto|auto| |nh| |].
+    + proj_simpl. intros g Hg. rewrite Heqw in Hg. injection Hg as <-. right. left. now left.
+    + intros v [H|[]]; discriminate.
+    + intros r t k [H|[]]; discriminate.
+  - (* EWriteFail *)
+    eapply (Acct_quiet s); [exact I|reflexivity|reflexivity|reflexivity|auto|auto| |nh| |].
+    + proj_simpl. auto.
+    + intros v [H|[]]; discriminate.
+    + intros r t k [H|[]]; discriminate.
+  - (* ECtxCancel *)
+    pose proof (cancel_list_rel _ _ _ _ Heqp) as Rl. pose proof (cancel_list_out _ _ _ _ Heqp) as [Out _]. proj_simpl.
+    rewrite (cancel_list_frame _ _ _ _ Heqp).
+    eapply (Acct_hs s); [exact I|lo_eq|reflexivity|auto|auto|now left| | | | |]; proj_simpl.
+    + intros x [h Hx]. destruct (canc_rel_fwd _ _ _ _ _ Rl Hx) as (h' & Hh' & _). eauto.
+    + intros x h' Hx Hg. destruct (canc_rel_bwd _ _ _ _ _ Rl Hx) as (h & Hh & _ & S & Cc). left. exists h.
+      repeat split; [exact Hh|congruence|]. intros Hc. rewrite Cc, Hc. reflexivity.
+    + exact (nohand_inert_cancels _ _ _ _ Heqp).
+    + intros r t k Hin. destruct (Out _ Hin) as (? & ? & _). discriminate.
+    + intros v _. now left.
+  - (* EReaderGet *)
+    eapply (Acct_quiet s); [exact I|reflexivity|reflexivity| |auto|auto|auto|nh| |].
+    + unfold lo, pending_ids. proj_simpl. rewrite Heqr, Heql. reflexivity.
+    + intros v [].
+    + intros r t k0 [].
+  - (* EReaderFail *)
+    eapply (Acct_quiet s); [exact I|reflexivity|reflexivity| |auto|auto|auto|nh| |].
+    + unfold lo, pending_ids. proj_simpl. rewrite Heqr. reflexivity.
+    + intros v [].
+    + intros r t k0 [].
+  - (* EReaderQuit *)
+    eapply (Acct_gen s); [exact I|..]; proj_simpl; try solve [auto | no_in | same_hs | (intros x f Hf; left; eauto)].
+  - (* EArrive dup *)
+    eapply (Acct_gen s); [exact I|..]; proj_simpl; try solve [auto | no_in | intros; congruence].
+    + intros x Hlt. destruct (lo_arrive _ _ _ _ (set_pc (set_rd s RIdle) (SendImm {| f_rid := rid; f_tag := tag; f_pl := PErr err_duptag |})) Iids Heqr) with (x := x) as [Hx| ->]; auto.
+      right. left. exists tag, k. now left.
+    + intros x t k0 [Hin|[]]. injection Hin as <- _ _. right. left. eexists. split; reflexivity.
+    + same_hs.
+  - (* EArrive dispatch, ctx done *)
+    eapply (Acct_gen s); [exact I|..]; proj_simpl; try solve [auto | no_in | intros; congruence].
+    + intros x Hlt. destruct (lo_arrive _ _ _ _ (set_hs (set_tags (set_rd s RIdle) (<[tag:=rid]> (tags s))) (<[rid:={| h_tag := tag; h_st := HRun; h_canc := true |}]> (hs s))) Iids Heqr) with (x := x) as [Hx| ->]; auto.
+      right. left. exists tag, (KReq m). now left.
+    + intros x t k0 [Hin|[Hin|[Hin|[]]]]; try discriminate. injection Hin as <- _ _. left. rewrite lookup_insert. eauto.
+    + intros x. apply insert_is_Some.
+    + intros x h' Hx Hg. apply lookup_insert_Some in Hx as [[_ <-]|[_ Hx]]; [discriminate|]. left. exists h'. auto.
+  - (* EArrive dispatch *)
+    eapply (Acct_gen s); [exact I|..]; proj_simpl; try solve [auto | no_in | intros; congruence].
+    + intros x Hlt. destruct (lo_arrive _ _ _ _ (set_hs (set_tags (set_rd s RIdle) (<[tag:=rid]> (tags s))) (<[rid:={| h_tag := tag; h_st := HRun; h_canc := false |}]> (hs s))) Iids Heqr) with (x := x) as [Hx| ->]; auto.
+      right. left. exists tag, (KReq m). now left.
+    + intros x t k0 [Hin|[Hin|[]]]; try discriminate. injection Hin as <- _ _. left. rewrite lookup_insert. eauto.
+    + intros x. apply insert_is_Some.
+    + intros x h' Hx Hg. apply lookup_insert_Some in Hx as [[_ <-]|[_ Hx]]; [discriminate|]. left. exists h'. auto.
+  - (* EArrive flush of an outstanding tag *)
+    pose proof (cancel_rid_rel _ _ _ _ Heqp0) as Rl. pose proof (cancel_rid_out _ _ _ _ Heqp0) as [Out _]. proj_simpl.
+    rewrite (cancel_rid_frame _ _ _ _ Heqp0).
+    eapply (Acct_gen s); [exact I|..]; proj_simpl; try solve [auto | intros; congruence].
+    + intros x Hlt. destruct (lo_arrive _ _ _ _ (set_pc (set_hs (set_tags (set_rd s RIdle) (delete old (tags s))) (hs s0)) (SendImm {| f_rid := rid; f_tag := tag; f_pl := PFlushAck n |})) Iids Heqr) with (x := x) as [Hx| ->]; auto.
+      right. left. exists tag, (KFlush old). now left.
+    + intros x t k0 [Hin|Hin]; [|destruct (Out _ Hin) as [? _]; discriminate].
+      injection Hin as <- _ _. right. left. eexists. split; reflexivity.
+    + intros x [h Hx]. destruct (canc_rel_fwd _ _ _ _ _ Rl Hx) as (h' & Hh' & _). eauto.
+    + intros x h' Hx Hg. destruct (canc_rel_bwd _ _ _ _ _ Rl Hx) as (h & Hh & _ & S & Cc). left. exists h.
+      repeat split; [exact Hh|congruence|]. intros Hc. rewrite Cc, Hc. reflexivity.
+    + intros f [Hin|Hin]; [discriminate|destruct (Out _ Hin) as [? _]; discriminate].
+    + intros f [Hin|Hin]; [discriminate|destruct (Out _ Hin) as [? _]; discriminate].
+    + intros v [Hin|Hin]; [discriminate|]. destruct (Out _ Hin) as [E _]. injection E as ->.
+      right. right. eexists. split; [left; reflexivity|reflexivity].
+  - (* EArrive flush of an unknown tag *)
+    eapply (Acct_gen s); [exact I|..]; proj_simpl; try solve [auto | no_in | intros; congruence].
+    + intros x Hlt. destruct (lo_arrive _ _ _ _ (set_pc (set_rd s RIdle) (SendImm {| f_rid := rid; f_tag := tag; f_pl := PErr err_unknowntag |})) Iids Heqr) with (x := x) as [Hx| ->]; auto.
+      right. left. exists tag, (KFlush old). now left.
+    + intros x t k0 [Hin|[]]. injection Hin as <- _ _. right. left. eexists. split; reflexivity.
+    + same_hs.
+  - (* EComplete, still the holder *)
+    apply N.eqb_eq in Heqb. subst n.
+    eapply (Acct_gen s); [exact I|..]; proj_simpl;
+      try solve [auto | no_in | intros; congruence | (intros x Hlt; left; exact Hlt) | (intros x; apply insert_is_Some)].
+    intros x h' Hx Hg. apply lookup_insert_Some in Hx as [[<- _]|[_ Hx]]; [|left; exists h'; auto].
+    right. right. right. right. eexists. reflexivity.
+  - (* EComplete, dropped *)
+    eapply (Acct_hs s); [exact I|lo_eq|reflexivity|auto|auto|now left| | |nh| |]; proj_simpl; try solve [no_in].
+    + intros x. apply insert_is_Some.
+    + intros x h' Hx Hg. apply lookup_insert_Some in Hx as [[<- <-]|[_ Hx]]; [|left; exists h'; auto].
+      right. left. cbn. destruct (h_canc h) eqn:Hc; [reflexivity|]. exfalso.
+      assert (Ht : tags s !! h_tag h = Some rid) by (apply (c_live _ Ic rid h Heqo0); [congruence|exact Hc]).
+      rewrite Heqo1 in Ht. injection Ht as ->. rewrite N.eqb_refl in Heqb. discriminate.
+  - eapply (Acct_hs s); [exact I|lo_eq|reflexivity|auto|auto|now left| | |nh| |]; proj_simpl; try solve [no_in].
+    + intros x. apply insert_is_Some.
+    + intros x h' Hx Hg. apply lookup_insert_Some in Hx as [[<- <-]|[_ Hx]]; [|left; exists h'; auto].
+      right. left. cbn. destruct (h_canc h) eqn:Hc; [reflexivity|]. exfalso.
+      assert (Ht : tags s !! h_tag h = Some rid) by (apply (c_live _ Ic rid h Heqo0); [congruence|exact Hc]).
+      congruence.
+  - (* EGiveUp *)
+    eapply (Acct_hs s); [exact I|lo_eq|reflexivity|auto|auto|now left| | |nh| |]; proj_simpl; try solve [no_in].
+    + intros x. apply insert_is_Some.
+    + intros x h' Hx Hg. apply lookup_insert_Some in Hx as [[<- <-]|[_ Hx]]; [|left; exists h'; auto].
+      cbn. apply orb_true_iff in Heqb as [Hb|Hb]; [right; now left|right; right]. unfold fault. proj_simpl. rewrite Hb. reflexivity.
+  - (* ETake, SendImm, ctx done *)
+    eapply (Acct_gen s); [exact I|..]; proj_simpl;
+      try solve [auto | no_in | intros; congruence | (intros x Hlt; left; exact Hlt) | same_hs
+        | (intros g Hg; rewrite Heqp in Hg; injection Hg as <-; right; left; rewrite hand_ids_app; apply in_or_app; right; now left)
+        | (intros g v Hg Hv; rewrite Heqp in Hg; injection Hg as <-; right; left; right; apply in_or_app; right; now left)].
+  - (* ETake, SendImm *)
+    eapply (Acct_gen s); [exact I|..]; proj_simpl;
+      try solve [auto | no_in | intros; congruence | (intros x Hlt; left; exact Hlt) | same_hs
+        | (intros g Hg; rewrite Heqp in Hg; injection Hg as <-; right; left; rewrite hand_ids_app; apply in_or_app; right; now left)
+        | (intros g [Hin|[]]; injection Hin as <-; now left)
+        | (intros g v Hg Hv; rewrite Heqp in Hg; injection Hg as <-; right; left; left; apply in_or_app; right; now left)].
+  - (* ETake, SendDone, ctx done *)
+    destruct (c_done _ Ic _ _ Heqp) as (Ehd & _).
+    eapply (Acct_gen s); [exact I|..]; proj_simpl;
+      try solve [auto | no_in | intros; congruence | (intros x Hlt; left; exact Hlt) | same_hs
+        | (intros x g Hg; rewrite Heqp in Hg; injection Hg as <- <-; right; left; rewrite hand_ids_app; apply in_or_app; right; left; exact Ehd)].
+  - (* ETake, SendDone *)
+    destruct (c_done _ Ic _ _ Heqp) as (Ehd & _).
+    eapply (Acct_gen s); [exact I|..]; proj_simpl;
+      try solve [auto | no_in | intros; congruence | (intros x Hlt; left; exact Hlt) | same_hs
+        | (intros x g Hg; rewrite Heqp in Hg; injection Hg as <- <-; right; left; rewrite hand_ids_app; apply in_or_app; right; left; exact Ehd)
+        | (intros g [Hin|[]]; injection Hin as <-; now left)].
+  - (* EDropDone *)
+    eapply (Acct_gen s); [exact I|..]; proj_simpl;
+      try solve [auto | no_in | intros; congruence | (intros x Hlt; left; exact Hlt) | same_hs
+        | (intros x g Hg; rewrite Heqp in Hg; injection Hg as <- <-; right; right; right; eauto)].
+  - (* EWriterQuit *)
+    eapply (Acct_quiet s); [exact I|reflexivity|reflexivity|reflexivity|auto|auto| |nh| |].
+    + proj_simpl. auto.
+    + intros v [].
+    + intros r t k0 [].
+  - (* EReturn *)
+    pose proof (cancel_list_rel _ _ _ _ Heqp) as Rl. pose proof (cancel_list_out _ _ _ _ Heqp) as [Out _]. proj_simpl.
+    apply andb_prop in Heqb as [_ Hfault].
+    rewrite (cancel_list_frame _ _ _ _ Heqp).
+    eapply (Acct_hs s); [exact I|lo_eq|reflexivity|auto|auto| | | | | |]; proj_simpl.
+    + right. split; [reflexivity|]. split; [exact Hfault|]. intros x f Hf.
+      destruct (c_done _ Ic _ _ Hf) as (_ & Ht & h & Hh & _).
+      destruct (canc_rel_fwd _ _ _ _ _ Rl Hh) as (h' & Hh' & _ & _ & Cc). exists h'. split; [exact Hh'|].
+      rewrite Cc, (existsb_eqb_in _ _ (in_vals _ _ _ Ht)). apply orb_true_r.
+    + intros x [h Hx]. destruct (canc_rel_fwd _ _ _ _ _ Rl Hx) as (h' & Hh' & _). eauto.
+    + intros x h' Hx Hg. destruct (canc_rel_bwd _ _ _ _ _ Rl Hx) as (h & Hh & _ & S & Cc). left. exists h.
+      repeat split; [exact Hh|congruence|]. intros Hc. rewrite Cc, Hc. reflexivity.
+    + apply nohand_app; [exact (nohand_inert_cancels _ _ _ _ Heqp)|nh].
+    + intros r t k Hin. apply in_app_or in Hin as [Hin|[Hin|[]]]; [|discriminate]. destruct (Out _ Hin) as (? & ? & _). discriminate.
+    + intros v _. now right.
+  - (* EStop *)
+    eapply (Acct_quiet s); [exact I|reflexivity|reflexivity|reflexivity|auto|auto|auto|nh| |].
+    + intros v [H|[]]; discriminate.
+    + intros r t k [H|[]]; discriminate.
+Qed.
+
+Lemma reach_Acct s tr : reach s tr -> Acct s tr.
+Proof.
+  induction 1 as [|s tr e s' o Hr IH Hs]; [apply Acct_init|].
+  eapply step_Acct; eauto; [eapply reach_SInv|eapply reach_Hist|eapply reach_Frames]; eauto.
+Qed.
